@@ -1,6 +1,6 @@
 SPECIFICATION Spec
 CONSTANTS
-  MaxOps = 4
+  MaxOps = 5
   UnitKinds = {}
   MaxPos = 1
   Sigs = {}
